@@ -141,6 +141,29 @@ def c05_3(ctx):
     for coin, cls, refname in (("bcash", "BcashSolver", "bch_solve"), ("bgold", "BgoldSolver", "btg_solve")):
         rel = "pycoin/coins/%s/Solver.py" % coin
         _refcheck(ctx, rel, cls + ".solve", refname, "forkid-forced:%s" % cls)
+        # whatever hash type the caller asks for, the one handed on carries the fork-id bit: decided on the store at the
+        # delegating call (kwargs['hash_type'] is, on every path, <something> | 0x40 or a constant with that bit)
+        sf = ctx.func(rel, cls + ".solve")
+        ws = sym.walk(ctx, sf, int_names=INTS)
+        sets = [e for e in ws.effects if e.kind == "setitem" and norm(e.key) == "'hash_type'"]
+        dele = [e for e in ws.effects if e.kind == "call" and norm(e.raw.func).endswith(".solve")]
+        if not sets or not dele:
+            raise Undecided("%s.solve: the hash type is not set through kwargs['hash_type'] before a delegating solve call" % cls)
+
+        def has_forkid(v_):
+            if isinstance(v_, ast.Constant) and isinstance(v_.value, int):
+                return bool(v_.value & 0x40)
+            if isinstance(v_, ast.BinOp) and isinstance(v_.op, ast.BitOr):
+                return has_forkid(v_.left) or has_forkid(v_.right)
+            return False            # anything but `requested | FORKID` may lose other bits of the requested type (x % 64 + 64 drops ANYONECANPAY)
+        # the last store on each path is the one the delegate sees: stores are ordered as performed
+        forced = [e for e in sets if has_forkid(e.value)]
+        r_forced = gi.f_or(*[e.reach for e in forced]) if forced else False
+        r_dele = gi.f_or(*[e.reach for e in dele])
+        later_plain = [e for e in sets if not has_forkid(e.value) and ws.effects.index(e) > max(ws.effects.index(x) for x in forced)] if forced else sets
+        ctx.check(r_forced is not False and sym.entails(r_dele, r_forced) and not later_plain, "forkid-bit-forced:%s" % cls, ctx.where(sf),
+                  "%s.solve does not hand on `requested hash type | SIGHASH_FORKID` on every path (stores: %s): the fork-id bit must be added and no other bit lost" % (cls, [norm(e.value)[:40] for e in sets]),
+                  sample={"class": cls, "stores": [norm(e.value)[:40] for e in sets]})
         c = ctx.p.cls(rel, cls)
         v = c.attrs.get("SolutionChecker")
         ctx.check(v is not None and norm(v) == cls.replace("Solver", "SolutionChecker"), "forkid-checker:%s" % cls, "%s:%d" % (rel, c.node.lineno), "%s does not validate with its coin's checker" % cls)
